@@ -245,6 +245,8 @@ def guard_atoms(fn, pos):
         callee = c.get('cs') or ''
         if k == 'CXXMemberCallExpr' and callee.split('::')[-1] in ('has_value', 'operator bool') and 'obj' in c:
             atoms.append(('has_value', fn.root_of(fn.stmts[c['obj']]), pol, c))
+        elif k == 'CXXMemberCallExpr' and '::operator ' in callee and (c.get('t') or '').rstrip().endswith('*') and 'obj' in c:
+            atoms.append(('nonnull', fn.root_of(fn.stmts[c['obj']]), pol, c))      # a wrapper converted to its raw pointer and tested: `if (!p)`
         elif k == 'CXXMemberCallExpr' and callee.split('::')[-1] in ('contains', 'Contains', 'ContainsKey', 'count') and 'obj' in c:
             atoms.append(('contains', (fn.root_of(fn.stmts[c['obj']]), tuple(fn.root_of(fn.stmts[a]) for a in c.get('args', []))), pol, c))
         elif k == 'CXXMemberCallExpr' and callee.split('::')[-1] in ('empty', 'IsEmpty') and 'obj' in c:
